@@ -4,6 +4,7 @@ CONSTANTS
   PartEnds = {1}
   DevTornTailFailsGet = TRUE
   DevTimescaleZeroExits = FALSE
+  DevRewritesFailedPart = FALSE
 INVARIANT Verdicts
 POSTCONDITION Accepted
 CHECK_DEADLOCK FALSE
